@@ -139,11 +139,15 @@ def evaluate(ctx, rng, tier, focus, budget, broken):
     if ctx.prep.model:
         # the same ops through the model: exact cell sequences (the pairs depend on the library, so this
         # correspondence run lives in the evaluator rather than in streams())
+        # a difference here is a broken correspondence, not yet a failing input: a path with another tie-break can
+        # still be a contiguous shortest path.  It is recorded under `broken` (the check then reports a violation in
+        # any case) and the statement itself is evaluated below on these pairs and on very long paths.
+        diffs = []
         for o, a, b in zip(ops, out, ctx.m(ops, tag="evalm")):
             if a != b:
-                viol_.append(viol("gridPathCells / gridDistance differ from the model", o, b[:200], a[:200]))
-                if len(viol_) >= 5:
-                    break
+                diffs.append({"op": o, "c": a[:200], "model": b[:200]})
+        if diffs:
+            broken.append({"kind": "correspondence", "name": "paths(evaluator)", "detail": diffs[:10]})
     ops2, meta2 = [], []
     nok = 0
     longest = 0
@@ -173,6 +177,35 @@ def evaluate(ctx, rng, tier, focus, budget, broken):
             viol_.append(viol("consecutive path cells are not neighbours", [src, o], "ok 1", a))
             if len(viol_) >= 20:
                 break
+    # very long paths at the finest resolutions, evaluated in-process by the harness (`pathcheck`): an error that
+    # accumulates per sample (seeded change C14g: an epsilon added to the per-sample step instead of the end point)
+    # shows only beyond ~1e5 cells.  A few on every run, many more when an obligation or the correspondence is broken.
+    want = 4 if (tier == "quick" and budget <= 1) else 40
+    cand = []
+    for _ in range(want * 6):
+        res = rng.choice([13, 14, 15])
+        bc = rng.choice([20, 50, 8, 100, 33])
+        z = res - rng.choice([12, 13])
+        a = gen.mkcell(res, bc, [0] * res) if rng.random() < 0.5 else \
+            gen.mkcell(res, bc, [0] * z + [rng.randrange(7) for _ in range(res - z)])
+        b = gen.mkcell(res, bc, [0] * z + [rng.randrange(1, 7)] + [rng.randrange(7) for _ in range(res - z - 1)])
+        cand.append((a, b))
+    szs = ctx.c([f"pathsize {gen.hx(a)} {gen.hx(b)}" for a, b in cand], tag="longsz")
+    longp = [(a, b) for (a, b), s_ in zip(cand, szs) if ok(s_) and 60000 <= int(s_.split()[1]) <= 1500000]
+    longp.sort(key=lambda p_: -int(szs[cand.index(p_)].split()[1]))
+    longp = longp[:want]
+    opsL = [f"pathcheck {gen.hx(a)} {gen.hx(b)}" for a, b in longp]
+    outL = ctx.c(opsL, tag="longpaths")
+    longest_checked = 0
+    for o, a in zip(opsL, outL):
+        if not ok(a):
+            continue
+        t = a.split()
+        longest_checked = max(longest_checked, int(t[1]))
+        if t[2] != "-1" or t[3:6] != ["1", "1", "1"]:
+            viol_.append(viol("long path: a step is not a neighbour step / wrong endpoints / invalid cell "
+                              "(answer: size, first bad step, first==a, last==b, all valid)", o,
+                              f"ok {t[1]} -1 1 1 1", a))
     # neighbouring cells always succeed
     nb = Neigh(ctx)
     origins = [a for a, _ in pairs[:300]]
@@ -190,9 +223,12 @@ def evaluate(ctx, rng, tier, focus, budget, broken):
                 break
     return {"evaluations": len(ops) + len(ops2) + len(ops3), "violations": viol_[:20], "distinct": ops,
             "coverage": {"pairs": len(pairs), "successful_paths": nok, "longest_path": longest,
+                         "long_paths_checked_in_process": len(opsL), "longest_long_path": longest_checked,
                          "neighbour_steps_checked": len(ops2), "neighbour_pairs": len(ops3)},
             "samples": [{"op": ops[i], "c_answer": out[i][:160]} for i in (0, len(ops) // 2)]}
 
 
 def replay_verdict(rp, out):
+    if rp["ops"] and rp["ops"][0].startswith("pathcheck"):
+        return out[0] != rp.get("expected")
     return True
